@@ -9,14 +9,16 @@
    leaves t      : the token indices at the leaves of t, left to right (Spec/LuaGrammar.v)
    next_newline ts q : index of the first newline token at or after q (the number of tokens if none)
    The first four theorems are for every token list, valid program or not.  C08_complete is the completeness half:
-   derives ts g / line_scoped ts g : g is a derivation of ts in the reference grammar (Spec/LuaGrammar.v) laid out so that
+   derives ts g / line_scoped ts g : g is a derivation of ts in the reference grammar (Spec/LuaGrammar.v: a well-formed
+                   derivation tree - only if-nodes carry the short flag, token leaves carry the data of the token at
+                   their index - that the grammar accepts and whose leaves are the significant tokens) laid out so that
                    every one-line if owns the rest of its line
-   in_frag g     : the exclusions (Proofs/ParserComplete2.v, a computable predicate on the derivation alone):
-                   a statement that starts with '(' directly follows a ';' (Lua's call ambiguity); the body of a
-                   one-line if has a first item which is not a do-block (known finding: `if (c) do` is read as
-                   `if (c) then`); the else part of a one-line if has at least one statement (picotool drops an
-                   empty one); only if-nodes carry the short flag
-   tokdata_ok ts g : the token stored at each Tok leaf of g has the data of the token at that index of ts
+   excl g        : the exclusions (Proofs/ParserComplete2.v, a computable predicate on the derivation alone):
+                   a statement that starts with '(' directly follows a ';' or is the first statement of its block
+                   (Lua's call ambiguity; the body of a one-line if counts as following its condition: `if (c) (f)()`
+                   is the condition `(c)(f)()`); the body of a one-line if has a first item which is not a do-block
+                   (known finding: `if (c) do` is read as `if (c) then`); the else part of a one-line if has at
+                   least one statement (picotool drops an empty one)
    view root     : the Python-visible projection of the model's tree (Model/AstWriter.v), the tree the monitor reads *)
 From PV Require Import Base.Prelude Spec.LuaTokens Spec.LuaGrammar Model.Tokens Model.Parser Model.ParserInst Model.AstWriter
   Proofs.ParserProofs Proofs.ParserSpecs Proofs.ParserTheorems Proofs.ParserComplete2 Proofs.ParserComplete6.
@@ -77,7 +79,7 @@ Proof. cbv zeta. eexists _, _, _. split; vm_compute; reflexivity. Qed.
    token, and the exposed tree is the one the derivation denotes - statement kinds, nesting, chains, lists, targets,
    operators and operands in source order, one-line ifs owning exactly their line *)
 Theorem C08_complete : forall ts g,
-  derives ts g = true -> line_scoped ts g = true -> in_frag g = true -> tokdata_ok ts g = true ->
+  derives ts g = true -> line_scoped ts g = true -> excl g = true ->
   exists root e, lua_parse ts = Ok (root, e) /\ consumed ts e = true /\ denotes g (view root) = true.
 Proof. exact parse_complete. Qed.
 Print Assumptions C08_complete.
@@ -88,6 +90,25 @@ Print Assumptions C08_complete.
 Example C08_complete_nonvacuous :
   let ts := c08_example_ts in
   let g := match lua_parse ts with Ok (root, _) => to_deriv 50 root | Err _ => PNone end in
-  derives ts g = true /\ line_scoped ts g = true /\ in_frag g = true /\ tokdata_ok ts g = true /\
+  derives ts g = true /\ line_scoped ts g = true /\ excl g = true /\
   length (short_ifs g) = 1%nat /\ length (leaves g) = 45%nat.
+Proof. cbv zeta. repeat split; vm_compute; reflexivity. Qed.
+
+(* non-vacuity of the relaxed guard:  (f)() / do (g)() end / if (a) b=1 else (h)()  - a statement that starts with
+   '(' as the first statement of the program, of a do-block and of the else part of a one-line if *)
+Definition c08_paren_first_ts : list token :=
+  let sp := mkTok CSpace 0 " "%bs " "%bs in
+  let nl := mkTok CNewline 0 [10] [10] in
+  let nm c := mkTok CName 0 c c in
+  let sy c := mkTok CSymbol 0 c c in
+  let kw c := mkTok CKeyword 0 c c in
+  [sy "("%bs; nm "f"%bs; sy ")"%bs; sy "("%bs; sy ")"%bs; nl;
+   kw "do"%bs; sp; sy "("%bs; nm "g"%bs; sy ")"%bs; sy "("%bs; sy ")"%bs; sp; kw "end"%bs; nl;
+   kw "if"%bs; sp; sy "("%bs; nm "a"%bs; sy ")"%bs; sp; nm "b"%bs; sy "="%bs; mkTok CNumber 0 "1"%bs "1"%bs; sp; kw "else"%bs; sp;
+   sy "("%bs; nm "h"%bs; sy ")"%bs; sy "("%bs; sy ")"%bs; nl].
+Example C08_complete_paren_first :
+  let ts := c08_paren_first_ts in
+  let g := match lua_parse ts with Ok (root, _) => to_deriv 50 root | Err _ => PNone end in
+  derives ts g = true /\ line_scoped ts g = true /\ excl g = true /\
+  length (leaves g) = 25%nat.
 Proof. cbv zeta. repeat split; vm_compute; reflexivity. Qed.
